@@ -407,6 +407,35 @@ def record_order(model, dec, fid, prop='C09', extra_fp=None):
     return out
 
 
+def inventories(model, dec, fid, prop='content', extra_fp=None):
+    """Per logical file and per set: exactly the objects the specification holds, in definition order (no ghost, none missing)."""
+    out = []
+    mf = model.files[fid]
+    for li, lfm in enumerate(mf.lfs):
+        if li >= len(dec.lfs):
+            break
+        lfd = dec.lfs[li]
+        want = {}
+        for st, sn, objs in lfm.sets():
+            names = []
+            for o in objs:
+                nm = o.name
+                for p, lit, _ in o.props_later:
+                    if p == 'name':
+                        nm = lit
+                names.append(nm)
+            want[(st, sn or None)] = names
+        got = {}
+        for s in lfd.sets:
+            if s.type != 'FILE-HEADER':
+                got.setdefault((s.type, s.name or None), []).extend(o.name[2] for o in s.objects)
+        if want != got:
+            extra = {str(k): v for k, v in got.items() if want.get(k) != v}
+            miss = {str(k): v for k, v in want.items() if got.get(k) != v}
+            out.append(V('%s.inventory' % prop, dict(extra_fp or {}, lf=li), got=extra, want=miss))
+    return out
+
+
 # ------------------------------------------------------------------------------ conjunction (C12, C17)
 
 def faithful(model, dec, fid, write_op, env_tz='UTC', data_file=None):
@@ -421,6 +450,7 @@ def faithful(model, dec, fid, write_op, env_tz='UTC', data_file=None):
     if out:
         return out
     mf = model.files[fid]
+    out.extend(inventories(model, dec, fid, prop='content'))
     v, _ = layout(data_file, mf, prop='layout') if data_file is not None else ([], None)
     out.extend(v)
     out.extend(record_order(model, dec, fid, prop='order'))
